@@ -60,6 +60,15 @@ template <class Db> std::vector<std::string> absent_queries(const std::vector<co
   for (size_t i = 0; i < reg.size(); i++) {
     std::string n = Db::name(reg[i]);
     add(n + "\x01");                       // falls between n and its successor
+    // absent names with the SAME djb2 value as n (h = 33 h + c: one character +1, the next -33): a lookup that goes through
+    // the id must not mistake them for n
+    for (size_t k : {(size_t)0, n.size() / 2, n.size() - 2}) {
+      if (k + 1 >= n.size()) continue;
+      std::string hcol = n;
+      if ((unsigned char)hcol[k] < 0x7e && (unsigned char)hcol[k + 1] >= 0x21 + 33) { hcol[k]++; hcol[k + 1] -= 33; add(hcol); }
+      std::string hcol2 = n;
+      if ((unsigned char)hcol2[k] > 0x21 && (unsigned char)hcol2[k + 1] + 33 < 0x7f) { hcol2[k]--; hcol2[k + 1] += 33; add(hcol2); }
+    }
     std::string p = n; p[p.size() - 1]--; add(p + "\x7e");   // just below n
     if (i < 3 || i + 3 >= reg.size() || i == reg.size() / 2) {
       add(n.substr(0, n.size() - 1)); add(n + "x"); add(n.substr(0, n.size() / 2));
